@@ -1,8 +1,13 @@
 (* C18 — Line projection is closest point; reported line intersections lie on both lines.
    Only statements here; each is closed by `exact <lemma>` from proofs/P_line.v.
    `line_pt p d s = p + s d`; `on_line p q x` : x = p + s (q - p) for some s; `v0` is the zero vector; a NaN row is None.
-   intersect_lines / intersect_2d_lines are the routines WITH the repairs of fixes/C18-*.diff (see model/M_line.v);
-   on the released code the check reports the two defects as violations with concrete inputs. *)
+   intersect_lines / intersect_2d_lines are the routines WITH the repairs of fixes/C18-intersect-*.diff (applied to
+   /repo as fix: commits; see model/M_line.v).
+   Spec vocabulary (v0, line_pt, on_line, on_line2, parallel2) lives in model/M_line_spec.v.
+   Not visible to any real-number theorem: overflow / underflow of the squared norm of a direction vector in binary64
+   (|direction| outside about [1e-150, 1e150]); that part of "any non-zero length" is judged by the correspondence and
+   the oracle on the proj_*_extreme stream (known finding projection_direction_overflow, repair proposed in
+   fixes/C18-projection-extreme-lengths.diff). *)
 From Coq Require Import ZArith Reals Lra List Bool.
 From PW Require Import Num NumR Vec NpList Result.
 From PW.model Require Import M_line M_line_spec.
